@@ -292,8 +292,48 @@ def fixed_form_program(rnd: random.Random):
     return "\n".join(L) + "\n", expect, {}
 
 
+SUBMODULES = ("module pm\n  interface\n    module subroutine q1()\n    end subroutine q1\n  end interface\nend module pm\n"
+              "submodule (pm) sm_a\nend submodule sm_a\n"
+              "submodule (pm:sm_a) sm_child\ncontains\n  module subroutine q1()\n  end subroutine q1\nend submodule sm_child\n"
+              "submodule ( pm : sm_a ) sm_other\nend submodule sm_other\n")
+SUBMODULES_EXPECT = [{"name": "pm", "cat": "module", "container": None, "sline": 1, "eline": 6},
+                     {"name": "sm_a", "cat": "module", "container": None, "sline": 7, "eline": 8},
+                     {"name": "sm_child", "cat": "module", "container": None, "sline": 9, "eline": 13},
+                     {"name": "sm_other", "cat": "module", "container": None, "sline": 14, "eline": 15}]
+
+
+def check_names_and_ranges(text, expect, fname):
+    """outline only: each expected unit once, with its lines"""
+    from replay.harness import Workspace, session
+    ws = Workspace({fname: text})
+    try:
+        uri = ws.uri(fname)
+        srv, out = session(ws, [{"jsonrpc": "2.0", "method": "textDocument/didOpen", "params": {"textDocument": {"uri": uri}}},
+                                {"jsonrpc": "2.0", "id": 1, "method": "textDocument/documentSymbol", "params": {"textDocument": {"uri": uri}}},
+                                {"jsonrpc": "2.0", "id": 2, "method": "workspace/symbol", "params": {"query": "sm_"}}])
+        by_id = {m["id"]: m for m in out if "id" in m}
+        syms = by_id[1].get("result") or []
+        for e in expect:
+            hits = [s_ for s_ in syms if s_["name"].lower() == e["name"] and s_.get("containerName") == e["container"]]
+            if len(hits) != 1 or hits[0]["location"]["range"]["start"]["line"] != e["sline"] - 1 \
+                    or hits[0]["location"]["range"]["end"]["line"] != e["eline"] - 1:
+                return {"problem": f"unit '{e['name']}' not listed once with its lines", "expected": e,
+                        "outline": [(s_["name"], s_["location"]["range"]["start"]["line"] + 1, s_["location"]["range"]["end"]["line"] + 1) for s_ in syms]}
+        names = sorted(r["name"] for r in by_id[2].get("result") or [])
+        want = sorted(e["name"] for e in expect if "sm_" in e["name"])
+        if names != want:
+            return {"problem": "workspace/symbol 'sm_' differs", "expected": want, "returned": names}
+        return None
+    finally:
+        ws.close()
+
+
 def run(tier: str, seed: int):
-    n = 0
+    n = 1
+    w = check_names_and_ranges(SUBMODULES, SUBMODULES_EXPECT, "sub.f90")
+    if w:
+        w["program"] = SUBMODULES
+        return w, n
     for k in range(40 if tier == "thorough" else 10):
         text, expect, members = fixed_form_program(random.Random(seed * 977 + k))
         n += 1
